@@ -18,7 +18,7 @@ def lang(**kw):
 LEVEL = {}
 PLAN = {
     "C01": {"steps": [codec()]},
-    "C02": {"steps": [codec(),
+    "C02": {"steps": [codec(), lang(),
                       codec(variant="asan", part="heap", tiers=["thorough"]),
                       codec(variant="checkptr", part="heap", tiers=["thorough"])]},
     "C03": {"steps": [net(), net(variant="race", tiers=["thorough"])]},
